@@ -315,7 +315,9 @@ def c16():
     import suite_fps
     return {
         "props_file": "Props/C16.v",
-        "theorems": [],
+        "theorems": ["C16_batches", "C16_batch_sizes", "C16_ranges_lookup", "C16_file_seq",
+                     "C16_file_seq_unsorted", "C16_names_sorted", "C16_digits_enough",
+                     "C16_split_merge", "C16_source_tie", "C16_parts_cover"],
         "model_files": ["Model/FpsUtil.v"],
         "suites": [suite_fps.suite_file_seq, suite_fps.suite_batches, suite_fps.suite_fps_cli],
         "search": suite_fps.search_c16,
@@ -360,9 +362,35 @@ def c19():
     }
 
 
+def c15():
+    import suite_cli
+    return {
+        "props_file": "Props/C15.v",
+        "theorems": ["C15_nonempty_refused", "C15_overwrite", "C15_overwrite_never_refuses",
+                     "C15_run_config_total", "C15_refine_options", "C15_plan_fits_all_files"],
+        "model_files": ["Model/Cli.v"],
+        "suites": [suite_cli.suite_cli],
+        "search": suite_cli.search_c15,
+        "replay": suite_cli.replay_c15,
+        "level": "proof",
+        "rule": "random combinations over: merge / refine / midsection criteria (all six names), refine-num, "
+                "refine and recluster rounds, threshold changes, save-tree, save-centroids, overwrite with a "
+                "dirty output dir, copy vs symlink, packed vs unpacked, n-features (incl. non-multiples of 8), "
+                "single file vs directory, bin size, midsection rounds, initial-refine mode, split-after-mid, "
+                "memory monitor on/off; one big-cluster multiround case (two dtype groups per file, bin size "
+                "> number of inputs); every run compared with the Python API called directly",
+        "trusted": COMMON_TRUST + ["typer argument parsing and console output are not modelled",
+                                   "hand model Model/Cli.v of the CLI's own decision logic, tied by the suite"],
+        "assumptions": ["the hidden --recluster-shuffle option is switched off in the comparison (with its "
+                        "default, an unseeded shuffle, neither CLI nor API is deterministic)"],
+    }
+
+
 SPECS = {
     "C01": c01,
+    "C15": c15,
     "C19": c19,
+    "C16": c16,
     "C18": c18,
     "C20": c20,
     "C04": c04,
